@@ -162,7 +162,18 @@ theorem w_incrby : CmdWF cmdIncrBy := by
   intro env db args _; unfold cmdIncrBy; repeat' (first | exact wf_incrBy _ _ _ _ | wf_leaf | split)
 theorem w_decrby : CmdWF cmdDecrBy := by
   intro env db args _; unfold cmdDecrBy; repeat' (first | exact wf_incrBy _ _ _ _ | wf_leaf | split)
-theorem w_incrbyfloat : CmdWF cmdIncrByFloat := by intro env db args _; unfold cmdIncrByFloat; wf_cmd
+theorem wf_rejectObs (obs : Option Reply) (why : String) (h : noCRLF (ofStr ("MODEL-REJECTS " ++ why)) = true)
+    (h' : noCRLF (ofStr ("ERR MODEL-REJECTS " ++ why)) = true) : Resp.WF (rejectObs obs why) := by
+  unfold rejectObs; split
+  · exact wf_simple h
+  · exact wf_err h'
+
+theorem w_incrbyfloat : CmdWF cmdIncrByFloat := by
+  intro env db args ho; unfold cmdIncrByFloat
+  repeat' (first
+    | exact wf_rejectObs _ _ (by decide +kernel) (by decide +kernel)
+    | exact ho _ (by assumption)
+    | wf_leaf | dsimp only | split)
 theorem w_ping : CmdWF cmdPing := by intro env db args _; unfold cmdPing; wf_cmd
 theorem w_del : CmdWF cmdDel := by intro env db args _; unfold cmdDel; wf_cmd
 theorem w_exists : CmdWF cmdExists := by intro env db args _; unfold cmdExists; wf_cmd
@@ -216,12 +227,6 @@ theorem wf_hashRead (env : Env) (db : Db) (k : Bytes) (body : HashT → Reply) (
 theorem wf_hashWrite (env : Env) (db : Db) (k : Bytes) (body : HashT → Reply × HashT) (h : ∀ x, Resp.WF (body x).1) :
     Resp.WF (hashWrite env db k body).1 := by
   unfold hashWrite; repeat' (first | exact h _ | wf_leaf | dsimp only | split)
-
-theorem wf_rejectObs (obs : Option Reply) (why : String) (h : noCRLF (ofStr ("MODEL-REJECTS " ++ why)) = true)
-    (h' : noCRLF (ofStr ("ERR MODEL-REJECTS " ++ why)) = true) : Resp.WF (rejectObs obs why) := by
-  unfold rejectObs; split
-  · exact wf_simple h
-  · exact wf_err h'
 
 theorem wf_hsetnx (h : HashT) (f v : Bytes) : Resp.WF (hsetnx h f v).1 := by unfold hsetnx; wf_cmd
 theorem wf_hincrby (h : HashT) (f : Bytes) (d : Int) : Resp.WF (hincrby h f d).1 := by
